@@ -108,7 +108,7 @@ def unit_query(cls):
             if not isinstance(qa, ArrData) or not hasattr(qa, "filter_of"):
                 E.oblige("returns.where_of_mask", st, False)
                 continue
-            mask, pos, m = qa.filter_of
+            mask, pos, m, _inv = qa.filter_of
             st.assume(m == gq(sym.n))      # trusted lemma: len(np.where(mask)[0]) = count of True by unfolding
             j = z3.Int("j")
             E.oblige("ensures.C10.result.range", st, z3.ForAll([j], z3.Implies(z3.And(0 <= j, j < m),
